@@ -24,6 +24,9 @@ def units(tier, seed, only=None):
         if u.name in ('orc_code_chunk_free', 'orc_code_allocate_codemem', 'orc_code_chunk_split', 'orc_code_chunk_merge'):
             u.name = 'lock:' + u.name
             us.append(u)
+    us.append(core.Unit('lock:orc_code_allocate_codemem:callees', c09.SRC, 'h_allocate', enforce='orc_code_allocate_codemem', defines=['LOCK_ONLY=1'],
+                        replace=['orc_code_region_get_free_chunk', 'orc_code_chunk_split'],
+                        contract_text='orc_code_allocate_codemem enters the free-chunk search and the split only while holding the global mutex (preconditions of the replaced callees), and returns with the mutex released'))
     if only:
         us = [u for u in us if re.search(only, u.name)]
     return us
